@@ -191,7 +191,69 @@ func c15WithFile(c c15Case) error {
 	return err
 }
 
+// c15Embedded: quoted text inside an unquoted pattern context. Pre and Post
+// are unquoted pattern text (e.g. "[a" and "z]"); the word Pre+Q(S)+Post,
+// expanded in Pattern mode, must match exactly what the pattern
+// Pre + S with every character escaped + Post matches.
+type c15Embedded struct {
+	Pre   string `json:"pre"`
+	S     string `json:"s"`
+	Quote string `json:"quote"`
+	Post  string `json:"post"`
+}
+
+func checkC15Embedded(c c15Embedded) error {
+	q, ok := c15Quote(c.S, c.Quote)
+	if !ok {
+		return nil
+	}
+	src := "_ " + c.Pre + q + c.Post
+	cmd, _, err := parser.ParseCommand("c15", src)
+	if err != nil {
+		return nil // this context cannot be written like that
+	}
+	sc, ok := cmd.(*ast.Cmd).Expr.(*ast.SimpleCmd)
+	if !ok || len(sc.Args) != 2 {
+		return nil
+	}
+	var esc strings.Builder
+	for _, r := range c.S {
+		esc.WriteByte('\\')
+		esc.WriteRune(r)
+	}
+	want, err := ref.ParsePattern(c.Pre + esc.String() + c.Post)
+	if err != nil {
+		return nil // not a well-formed pattern (or beyond the reference): nothing to compare
+	}
+	env := interp.NewExecEnv("sh")
+	env.Opts |= interp.NoGlob
+	var got []string
+	var gerr error
+	if e := guard(func() error { got, gerr = env.Expand(sc.Args[1], interp.Pattern); return nil }); e != nil {
+		return fmt.Errorf("Expand(%s, Pattern) %v", src[2:], e)
+	}
+	if gerr != nil || len(got) != 1 {
+		return fmt.Errorf("Expand(%s, Pattern) = %q, %v; want one pattern", src[2:], got, gerr)
+	}
+	subjects := []string{"", "a", "z", "m", "x", "-", "!", "^", "]", "[", "\\", "*", "?", c.S, "a" + c.S, c.S + "z", "a" + c.S + "z", "am", "b"}
+	for _, r := range c.S {
+		subjects = append(subjects, string(r), "a"+string(r), string(r)+"z")
+	}
+	for _, subj := range subjects {
+		m, merr := pattern.Match([]string{got[0]}, pattern.Prefix|pattern.Largest, subj)
+		if merr != nil && merr != pattern.NoMatch {
+			return fmt.Errorf("Expand(%s, Pattern) = %q: Match reports %v", src[2:], got[0], merr)
+		}
+		matched := merr == nil && m == subj
+		if w := want.Whole([]rune(subj)); matched != w {
+			return fmt.Errorf("Expand(%s, Pattern) = %q matches %q = %v; the quoted part is literal text, so it has to be %v", src[2:], got[0], subj, matched, w)
+		}
+	}
+	return nil
+}
+
 func init() {
+	reg("C15", "embedded", checkC15Embedded)
 	reg("C15", "quoted", func(c c15Case) error {
 		leave, err := c15Dir("c15-replay")
 		if err != nil {
@@ -263,6 +325,31 @@ func TestC15(t *testing.T) {
 	}
 	st.Exhaustive = true
 	st.Note("exhaustive: every string of <= %d symbols over %d symbols (all shell special characters, blank, tab, newline, a, b, /, :, -, ., é) x {single quotes, double quotes with escapes, a backslash before each character, a per-character mix} x 7 expansion modes, with IFS = the string's own characters plus blanks and letters, HOME and positional parameters set, and a working directory holding files named like the string and like glob expansions of it", maxn, len(c15Alpha))
+
+	// quoted text inside unquoted pattern contexts
+	{
+		ctxs := [][2]string{{"[a", "z]"}, {"[", "]"}, {"[!", "x]"}, {"[", "a]"}, {"[a", "]"}, {"*", "*"}, {"?", ""}, {"", "*"}, {"[a-", "]"}, {"[", "-z]"}, {"a", "z"}, {"[[:alpha:]", "]"}}
+		k := 0
+		for n := 1; n <= 2; n++ {
+			words([]string{"-", "!", "^", "]", "[", `\`, "*", "?", "a", "m", ".", ":"}, n, func(q string) {
+				for _, ctx := range ctxs {
+					for _, how := range []string{"single", "double", "backslash"} {
+						k++
+						if k%nsh != sh {
+							continue
+						}
+						c := c15Embedded{Pre: ctx[0], S: q, Quote: how, Post: ctx[1]}
+						if err := checkC15Embedded(c); err != nil {
+							fail(t, "C15", "embedded", c, "%v", err)
+						}
+						st.EvalN(1, 1)
+						st.Class("quoted_text_inside_a_pattern")
+					}
+				}
+			})
+		}
+		st.Note("quoted text inside unquoted pattern contexts: every string of <= 2 symbols over {- ! ^ ] [ \\ * ? a m . :} x 3 quotings x %d contexts (bracket expressions, ranges, negation, wildcards), compared with the reference matcher on the pattern with the quoted part escaped", len(ctxs))
+	}
 
 	n := 30000
 	if thorough() {
